@@ -128,6 +128,7 @@ func C13(c *Ctx) {
 	c13TextDecoded(c, "C13-R1")
 	c13ParseAlways(c, "C13-R1")
 	c13FindTypedNil(c, "C13-R4")
+	c13UnknownSyntaxAlways(c, "C13-R4")
 	c.R.Rule("C13-R2", "E6+E3", "every source compiled; no iteration skips validation", 6)
 	c.R.Rule("C13-R3", "E3", "success implies compiled", 2)
 	c.R.Rule("C13-R4", "E6", "rejection of unknown syntax, branching type, interpreter", 3)
